@@ -159,6 +159,12 @@ CORPUS = [
     {"grammar": "Model: ('a'-)* 'b';\n", "opts": {}, "inputs": ["a a b", "b", "a b"], "tag": "corpus-rep-suppressed"},
     {"grammar": "Model[noskipws]: 'a'*;\n", "opts": {}, "inputs": ["a a", "aa"], "tag": "corpus-modifier-on-repetition"},
     {"grammar": "Model: a=A; A[noskipws]: (x+=ID)*;\n", "opts": {}, "inputs": ["a b", "ab", " ab"], "tag": "corpus-modifier-on-repetition2"},
+    {"grammar": "Model: es+=E; E: 'e' A B | A | 'm' B 'x' A; A: 'a' x=INT; B: 'b' y=INT;\n", "opts": {},
+     "inputs": ["e a 1 b 2 a 3 m b 4 x a 5", "a 1", "e a 1"], "tag": "corpus-abstract-first-nonterminal"},
+    {"grammar": "Model: 'm' ts+=T; T: 't' flag?='!' n=INT s=STRING? f=FLOAT? b=BOOL? i=ID?;\n", "opts": {"auto_init_attributes": False},
+     "inputs": ["m t 1 t ! 2 's' 1.5 true x", "m t 0"], "tag": "corpus-defaults-noauto"},
+    {"grammar": "Model: 'm' ts+=T; T: 't' flag?='!' n=INT s=STRING? f=FLOAT? b=BOOL? i=ID?;\n", "opts": {},
+     "inputs": ["m t 1 t ! 2 's' 1.5 true x", "m t 0"], "tag": "corpus-defaults-auto"},
     {"grammar": "Model: objs+=O; O: 'o' name=ID ('{' kids+=O '}')?;\nComment: /\\/\\/.*?$/;\n", "opts": {},
      "inputs": ["o a { o b // c\n o c {o d} }\n\n  o e", "// x\no a{}", "o a {\r\n o b }"], "tag": "corpus-nested-comment"},
 ]
